@@ -296,7 +296,7 @@ def run(ctx):
         except Exception as e:
             raise Violation('harness-exception:' + exc_bucket(e), case, repr(e))
 
-    hyp_run(ctx, res, cases(), body, ctx.pick(700, 3000), label='histories')
+    hyp_run(ctx, res, cases(), body, ctx.pick(1400, 4000), label='histories')
     return res
 
 
